@@ -191,6 +191,39 @@ def gadget_net(rng: random.Random, max_vars: int = 8, rename=True):
     return n
 
 
+def rings_net(rng: random.Random, nmax: int = 7):
+    """Two or three negative feedback rings (repressilators, some with the 'all-on' escape
+    clause of the MAA gadget) coupled by a few gating literals: long transients and
+    quasi-attractors that random-walk pruning does not leave."""
+    names, exprs = [], {}
+    rings = []
+    while len(names) < nmax - 1 and len(rings) < 3:
+        k = rng.choice([2, 3, 3, 3])
+        if len(names) + k > nmax:
+            break
+        p = f"r{len(rings)}"
+        vs = [f"{p}{chr(97 + i)}" for i in range(k)]
+        esc = rng.random() < 0.5 and k == 3
+        allon = AND(*[V(v) for v in vs])
+        for i, v in enumerate(vs):
+            f = NOT(V(vs[(i - 1) % k]))
+            if esc:
+                f = OR(f, allon)
+            exprs[v] = f
+        names += vs
+        rings.append(vs)
+    for _ in range(rng.randint(1, 3)):
+        if len(rings) < 2:
+            break
+        a, b = rng.sample(range(len(rings)), 2)
+        tgt = rng.choice(rings[a])
+        g = V(rng.choice(rings[b]))
+        if rng.random() < 0.5:
+            g = NOT(g)
+        exprs[tgt] = AND(exprs[tgt], g) if rng.random() < 0.5 else OR(exprs[tgt], g)
+    return rename_net(rng, net(names, exprs, "rings"))
+
+
 def overlap_maa(rng: random.Random, rename=True, variant=None):
     """Two independent switches p, a; a third switch b available only under p; an MAA
     gadget gated by p & a & b.  Structure on which skip-node pruning by intersections is
@@ -262,12 +295,32 @@ def rename_net(rng: random.Random, n, mapping=None):
     return out
 
 
+def identity_form(rng: random.Random, v: str, names):
+    """An update function that is semantically the identity on v, written in one of several
+    ways (source detection must be semantic, not syntactic)."""
+    x = V(v)
+    others = [n for n in names if n != v]
+    y = V(rng.choice(others)) if others else x
+    forms = [
+        x,
+        x,
+        x,
+        AND(x, x),
+        NOT(NOT(x)),
+        OR(x, AND(x, y)),
+        OR(AND(x, y), AND(x, NOT(y))),
+        AND(x, OR(x, y)),
+        ["<=>", x, ["c", 1]],
+    ]
+    return rng.choice(forms)
+
+
 def with_inputs(rng: random.Random, n, k: int):
     """Turn k random variables into sources (x, x)."""
     names = list(n["names"])
     exprs = dict(n["exprs"])
     for v in rng.sample(names, min(k, len(names))):
-        exprs[v] = V(v)
+        exprs[v] = identity_form(rng, v, names)
     out = net(names, exprs, n["cls"] + "+inputs")
     return out
 
@@ -343,6 +396,8 @@ def draw(rng: random.Random, classes, nmax: int):
         if nmax < 7:
             return gadget_net(rng, max_vars=max(3, nmax))
         return overlap_maa(rng, variant=None if nmax >= 9 else rng.choice([2, 3]))
+    if cls == "rings":
+        return rings_net(rng, max(4, nmax))
     if cls == "inputs":
         base = draw(rng, [("rand", 2), ("gadget", 2)], nmax)
         return with_inputs(rng, base, rng.randint(1, 2))
